@@ -51,8 +51,13 @@ def module_mutable_names(ctx, sc):
     for n in tree.body:
         if isinstance(n, ast.Assign):
             v = n.value
+            callee = None
+            if isinstance(v, ast.Call):
+                callee = v.func.id if isinstance(v.func, ast.Name) else (v.func.attr if isinstance(v.func, ast.Attribute) else "?")
+            # any object built by a call at import time may be mutable state (caches, registries, weak dictionaries ...) unless known immutable
             mutable = isinstance(v, (ast.Dict, ast.List, ast.Set, ast.ListComp, ast.DictComp, ast.SetComp)) or \
-                (isinstance(v, ast.Call) and isinstance(v.func, ast.Name) and v.func.id in ("dict", "list", "set", "defaultdict", "OrderedDict", "deque"))
+                (callee is not None and callee not in ("namedtuple", "compile", "frozenset", "tuple", "int", "float", "str", "complex", "bool", "TypeVar",
+                                                       "getLogger", "NewType", "Symbol", "symbols"))
             if mutable:
                 for t in n.targets:
                     if isinstance(t, ast.Name):
@@ -157,11 +162,31 @@ def verify_function(ctx, c, section, only_prop):
     section["notes"].extend("%s: %s" % (c.name, n) for n in ls.notes[:10])
 
 
+_CTX = None
+
+
+def _one(name):
+    """verify one function in a fresh section (worker process)"""
+    global _CTX
+    if _CTX is None:
+        _CTX = Ctx(C.REPO, os.path.join(C.VERIF, "contracts"))
+    ctx = _CTX
+    ctx.assumed = set()
+    part = {"obligations": [], "errors": [], "notes": [], "functions": [], "trusted": [], "extra": {"per_function": {}}}
+    try:
+        verify_function(ctx, ctx.contracts[name], part, None)
+    except Exception:
+        part["errors"].append("PyVC worker crashed on %s: %s" % (name, traceback.format_exc()[-2000:]))
+    print("  %-28s %s" % (name, part["extra"]["per_function"].get(name, "")), file=sys.stderr)
+    return part, sorted(x for x in ctx.assumed if x)
+
+
 def main():
     ap = argparse.ArgumentParser()
     ap.add_argument("--prop", required=True)
     ap.add_argument("--tier", default="quick")
     ap.add_argument("--functions", default="")
+    ap.add_argument("--jobs", type=int, default=min(12, os.cpu_count() or 4))
     a = ap.parse_args()
     t0 = time.time()
     section = {"engine": "pyvc", "obligations": [], "bounded": [], "errors": [], "notes": [], "functions": [], "assumptions": [], "trusted": [],
@@ -173,14 +198,28 @@ def main():
         C.emit_section(section)
         return 0
     want = set(a.functions.split(",")) if a.functions else None
+    todo = []
     for name, c in sorted(ctx.contracts.items()):
         if want is not None:
             if name not in want:
                 continue
         elif a.prop != "ALL" and a.prop not in c.props:
             continue
-        verify_function(ctx, c, section, a.prop)
-        print("  %-28s %s" % (name, section["extra"]["per_function"].get(name, "")), file=sys.stderr)
+        todo.append(name)
+    # one process per function (a z3 context each), the expensive ones first
+    cost = {"serialize": 100, "exitArrayvar": 60, "exitStatement": 25, "exitForloop": 5, "match_template": 5, "exitExpressionvar": 3}
+    todo.sort(key=lambda n: -cost.get(n, 1))
+    if len(todo) > 1 and a.jobs > 1:
+        import multiprocessing
+        with multiprocessing.Pool(min(a.jobs, len(todo))) as pool:
+            parts = pool.map(_one, todo, chunksize=1)
+    else:
+        parts = [_one(n) for n in todo]
+    for part, assumed in parts:
+        for k in ("obligations", "errors", "notes", "functions", "trusted"):
+            section[k].extend(part[k])
+        section["extra"]["per_function"].update(part["extra"]["per_function"])
+        ctx.assumed |= set(assumed)
     for aid in sorted(x for x in ctx.assumed if x):
         section["trusted"].append("%s: %s" % (aid, lib.ASSUMED_TEXT.get(aid, "")))
     section["trusted"].append("PyVC's semantics of the Python subset (evaluation order, short-circuit, exception propagation, truthiness) -- cross-checked by the "
